@@ -30,16 +30,20 @@ def correspondence(ctx):
     r = ctx.sub_rnd("out-path")
     sub = [c for i, c in enumerate(cases) if len(c[1]) < 2000 and (i < 5000 or i % 7 == 0)][:ctx.n(3500, 80000)]
     sub += list(S.long_scripts(r, ctx.thorough()))
-    S.run_via_outputs(ctx, sub, lambda fam, i: [FORKCOINS[i % 6]] + ([FORKCOINS[(i + 3) % 6]] if fam.startswith("long") else []))
+    S.run_via_outputs(ctx, sub, lambda fam, i: FORKCOINS if fam.startswith(("idiom:", "well-known:")) else [FORKCOINS[i % 6]] + ([FORKCOINS[(i + 3) % 6]] if fam.startswith("long") else []))
+    S.address_chains(ctx, FORKCOINS)
 
 
 def replay(ctx, rep, corpus=None):
+    if rep.get("failing_input", rep).get("scenario"):
+        from .. import bb
+        return bb.replay_scenario(ctx, rep, bb.comparators_for(rep.get("failing_input", rep)["scenario"]["callback"]))
     if rep.get("failing_input", rep).get("via") == "block":
         return S.replay_via_outputs(ctx, rep)
     S.replay_one(ctx, rep, project)
 
 
 def shrink(ctx, d):
-    if d.get("via") == "block":
+    if d.get("via") == "block" or d.get("scenario"):
         return d
     return S.shrink_script(ctx, d, project)
